@@ -150,6 +150,29 @@ func runC03(c *Ctx) error {
 			ord[i] = i
 		}
 		cases = append(cases, chainCase{name: "bits extremes on genesis", ops: historyOps(ex, ord, nil, true)})
+		// work lattice: a chain whose headers have work just below / at / above 2^31, 2^32, 2^62, 2^63 (int64), 2^64 (uint64),
+		// 2^128, 2^192, so that own and cumulative work cross every machine-word boundary; with a fork that is overtaken
+		// (reorganisation) and a restart — values are read back from the table and through the API after each step
+		lattice := []uint32{0x1d01ffff, 0x1d00ffff, 0x1c7fffff, 0x1903ffff, 0x1902aaaa, 0x1901ffff, 0x19020000, 0x1901f000, 0x1901f000,
+			0x1900ffff, 0x1900ffff, 0x11010000, 0x1100ffff, 0x0900ffff, 0x09010000}
+		var lat []Node
+		for i, b := range lattice {
+			lat = append(lat, Node{Parent: i - 1, Bits: b})
+		}
+		lat = append(lat, Node{Parent: 3, Bits: 0x1901f000}, Node{Parent: len(lattice), Bits: 0x1900ffff}, Node{Parent: len(lattice) + 1, Bits: 0x1100ffff})
+		buildTree(lat, 5151+uint32(c.Seed), rng, false)
+		lord := make([]int, len(lat))
+		for i := range lord {
+			lord[i] = i
+		}
+		var lops []string
+		for _, op := range historyOps(lat, lord, nil, true) {
+			lops = append(lops, op)
+			if strings.HasPrefix(op, "add") && len(lops)%5 == 0 {
+				lops = append(lops, "restart", "dump")
+			}
+		}
+		cases = append(cases, chainCase{name: "work lattice across 2^31 .. 2^192", ops: lops})
 	}
 	if c.Replay == "" {
 		lens := []int{1103}
